@@ -1,4 +1,5 @@
 import CddVerif.Proofs.SyncProperties
+import CddVerif.Proofs.SyncPropertiesMulti
 /-!
 # C13 — `sync_properties` updates exactly the selected property
 
@@ -446,5 +447,221 @@ theorem not_C13_frame_docstring : ¬ C13_files_frame_full := by
       have := key 1 (fun e => hne e.symm)
       revert this; decide
     omega
+
+/-! ## several (input-param, output-param) pairs in one call
+
+Model: `CddVerif/Model/SyncPropertiesMulti.lean` — the loop `for input_param, output_param in zip(…)` of
+`sync_properties` (`loopPairs`/`syncAll`) on trees that carry their STORED `_location`/`_idx` (the output tree is not
+re-annotated between the pairs) and the identity of input nodes (the wrap template assigns to the input node itself).
+All statements below are proved by induction over the pair list. -/
+
+/-- the state the loop starts from: both files parsed and annotated -/
+def initState (fs : Files) : MState :=
+  { input := annotateInput (astParse fs.input), output := annotateOutput (astParse fs.output) }
+
+/-- **No pair is skipped, all or nothing:** a call that writes the output file has run `stepPair` successfully for
+    EVERY pair of the list, in order (`Steps`), each on the trees left by the previous one; the written module is the
+    final output tree without its attributes; the input file is as it was.  (If any pair raises, nothing is written:
+    `syncFilesAll` is an `Except`.) -/
+theorem multi_every_pair_applied (ev : Bool) (wrap : Option String) (ps : List Pair) (fs fs' : Files)
+    (h : syncFilesAll ev wrap ps fs = .ok fs') :
+    fs'.input = fs.input ∧ ∃ ms', Steps ev wrap (initState fs) ps ms' ∧ ms'.poisoned = false ∧ fs'.output = eraseL ms'.output := by
+  unfold syncFilesAll syncAll at h
+  cases hl : loopPairs ev wrap { input := annotateInput (astParse fs.input), output := annotateOutput (astParse fs.output) } ps with
+  | error e => rw [hl] at h; cases h
+  | ok ms' =>
+    rw [hl] at h
+    simp only [] at h
+    cases hp : ms'.poisoned with
+    | true => simp [hp, Except.map] at h
+    | false =>
+      simp only [hp, Bool.false_eq_true, if_false, Except.map] at h
+      cases h
+      exact ⟨rfl, ms', (loopPairs_iff_steps ev wrap ps _ ms').mp hl, hp, rfl⟩
+
+/-- **One pair (the induction step):** a successful pair = the replacement node computed from the input tree as it
+    stands (with the assignment to its annotation: `AliasUpd`), then exactly ONE hole in the output tree, at a node that
+    CARRIES the pair's output path as its `_location` (`SlotT`): a whole statement replaced by the node, or one parameter
+    replaced by its `ast.arg` form — name and annotation of the input (wrapped / `Literal`), `defaults` same length. -/
+theorem multi_each_pair_is_one_slot (ev : Bool) (wrap : Option String) (ms ms1 : MState) (p : Pair)
+    (h : stepPair ev wrap ms p = .ok ms1) (hp : ms1.phantom = false) :
+    ∃ node msw, replacementA ev wrap ms p = .ok (node, msw) ∧ AliasUpd ms msw ∧ ms1.input = msw.input ∧
+      OneHoleT (SlotT (stripSplit p.outputParam) node) msw.output ms1.output := by
+  obtain ⟨node, msw, hr, hal, hin, _, hole⟩ := stepPair_spec h
+  exact ⟨node, msw, hr, hal, hin, hole hp⟩
+
+/-- **Frame and slots of a whole call (induction over the pair list):** the final trees arise from the initial ones by
+    one `AliasUpd` + one `SlotT` hole PER PAIR, in order; everything a hole does not touch — statements, parameters,
+    defaults, annotations and the stored attributes — is carried over literally from pair to pair. -/
+theorem multi_frame_chain (ev : Bool) (wrap : Option String) (ps : List Pair) (ms ms' : MState)
+    (h : loopPairs ev wrap ms ps = .ok ms') (hp : ms'.phantom = false) : FrameChain ev wrap ms ps ms' :=
+  steps_chain ((loopPairs_iff_steps ev wrap ps ms ms').mp h) hp
+
+/-- without a template, and under `--input-eval`, no annotation is assigned behind the back of the rewrite -/
+theorem multi_no_alias_assignment (ev : Bool) (wrap : Option String) (hw : wrap = none ∨ ev = true) (ms msw : MState) (p : Pair)
+    (node : TNode) (h : replacementA ev wrap ms p = .ok (node, msw)) : msw = ms := by
+  rcases hw with hw | hw
+  · subst hw; exact replacementA_no_wrap h
+  · subst hw; exact replacementA_eval h
+
+/-- **Frame of a whole call, in plain terms** (no template, or `--input-eval`): the written module has as many
+    statements as the parsed output file, and all of them but at most ONE PER PAIR are literally unchanged. -/
+theorem multi_frame_top_level (ev : Bool) (wrap : Option String) (hw : wrap = none ∨ ev = true) (ps : List Pair)
+    (input output out : Module) (h : syncAll ev wrap ps input output = .ok out)
+    (hp : ∀ ms', loopPairs ev wrap { input := annotateInput (astParse input), output := annotateOutput (astParse output) } ps = .ok ms' →
+      ms'.phantom = false) :
+    out.length = (astParse output).length ∧
+    ∃ I : List Nat, I.length ≤ ps.length ∧ ∀ j : Nat, j ∉ I → out[j]? = (astParse output)[j]? := by
+  unfold syncAll at h
+  cases hl : loopPairs ev wrap { input := annotateInput (astParse input), output := annotateOutput (astParse output) } ps with
+  | error e => rw [hl] at h; cases h
+  | ok ms' =>
+    rw [hl] at h
+    simp only [] at h
+    cases hpo : ms'.poisoned with
+    | true => simp [hpo] at h
+    | false =>
+      simp only [hpo, Bool.false_eq_true, if_false] at h
+      cases h
+      obtain ⟨hlen, I, hI, hrest⟩ := steps_top_level hw ((loopPairs_iff_steps ev wrap ps _ ms').mp hl) (hp ms' hl)
+      refine ⟨?_, I, hI, fun j hj => ?_⟩
+      · rw [eraseL_length, hlen]
+        show (annotateOutput (astParse output)).length = _
+        rw [← eraseL_length, annotateOutput, eraseL_annotateL]
+      · rw [eraseL_getElem?, hrest j hj]
+        show ((annotateOutput (astParse output))[j]?).map eraseS = _
+        rw [← eraseL_getElem?, annotateOutput, eraseL_annotateL]
+
+/-- non-vacuity: three distinct pairs into one method (the fixed corner call corpus/C13/m04) succeed without phantom write -/
+example :
+    let input : Module := [.cls "A" [] [] [.ann "x" "int" none, .ann "y" "str" (some "'s'"), .ann "z" "float" none] []]
+    let output : Module := [.cls "K" [] [] [.fn false "m" { args := [⟨"self", none⟩, ⟨"a", none⟩, ⟨"b", none⟩, ⟨"c", none⟩], defaults := ["1", "2"] } [] [] none] []]
+    let ps : List Pair := [⟨"A.x", "K.m.a", none⟩, ⟨"A.y", "K.m.b", none⟩, ⟨"A.z", "K.m.c", none⟩]
+    (match syncAll false none ps input output with
+      | .ok [.cls _ _ _ [s] _] => sigView s
+      | _ => none) = some ([("self", none), ("x", some "int"), ("y", some "str"), ("z", some "float")], ["1", "2"]) ∧
+    (match loopPairs false none { input := annotateInput input, output := annotateOutput output } ps with
+      | .ok ms' => ms'.phantom
+      | .error _ => true) = false := by decide
+
+/-- **Why the same output cannot be selected twice:** the parameter built from an annotated assignment (and from the
+    `--input-eval` node) is a NEW `ast.arg` without `_location`, `_idx` and identity; a hole needs a node that carries the
+    path (`SlotT`), so that parameter can never be selected again.  An input *parameter* is put in as the same object and
+    keeps the attributes it has in the input file. -/
+theorem multi_built_parameter_has_no_location (l : Option Loc) (i : Option NodeId) (t a : String) (v : Option String) (r : TArg) :
+    (asArgA (.stmt (.ann l i t a v)) = some r → r.loc = none ∧ r.idx = none ∧ r.id = none ∧ r.name = t ∧ r.ann = some a) ∧
+    asArgA (.arg r) = some r := by
+  refine ⟨fun h => ?_, rfl⟩
+  simp only [asArgA, Option.some.injEq] at h
+  subst h; exact ⟨rfl, rfl, rfl, rfl, rfl⟩
+
+/-- **Two pairs into one parameter list (side condition made explicit):** if the two paths are carried by two
+    parameters (`j`, `k` the first carrying `P₁`, `P₂`), the paths differ, and the node put in by the first pair does not
+    carry the second path (it does not when it was built from an assignment; a moved input parameter carries its
+    INPUT-side location), then both parameters are replaced and nothing else of the list changes. -/
+theorem multi_two_params_one_function (P₁ P₂ : Loc) (r₁ r₂ : TArg) (l : List TArg) (j k : Nat)
+    (hj : l.findIdx? (fun x => x.loc == some P₁) = some j) (hk : l.findIdx? (fun x => x.loc == some P₂) = some k)
+    (hne : P₁ ≠ P₂) (hfresh : r₁.loc ≠ some P₂) :
+    (replaceFirstA P₂ r₂ (replaceFirstA P₁ r₁ l).1).1 = (l.set j r₁).set k r₂ := by
+  rw [replaceFirstA_findIdx P₁, hj]
+  simp only []
+  rw [replaceFirstA_findIdx P₂]
+  obtain ⟨x, hx, hpx⟩ := findIdx?_some_getElem _ l j hj
+  have hx2 : (x.loc == some P₂) = false := by
+    simp only [beq_iff_eq] at hpx
+    simp [hpx, hne]
+  have hr2 : (r₁.loc == some P₂) = false := by simp [hfresh]
+  rw [findIdx?_set_irrelevant (fun x => x.loc == some P₂) l j r₁ x hx hx2 hr2, hk]
+
+/-- what a call leaves in the output file, as decidable data (for the witnesses) -/
+def outView : Except Err Module → Option (List (List (String × Option String)))
+  | .ok m => some (m.map fun s => match s with
+      | .fn _ _ a _ _ _ => a.args.map fun x => (x.name, x.ann)
+      | .cls _ _ _ b _ => b.filterMap fun t => match t with
+          | .ann t a _ => some (t, some a)
+          | _ => none
+      | _ => [])
+  | .error _ => none
+
+/-- full claim "the last pair wins": selecting one output location twice works -/
+def C13_multi_last_wins_full : Prop :=
+  ∀ (input output : Module) (i₁ i₂ o : String), isOk (syncAll false none [⟨i₁, o, none⟩] input output) = true →
+    isOk (syncAll false none [⟨i₂, o, none⟩] input output) = true →
+    isOk (syncAll false none [⟨i₁, o, none⟩, ⟨i₂, o, none⟩] input output) = true
+
+/-- **Negation (one output selected twice):** `A.x → f.b, A.y → f.b` — each pair alone works, together the second one
+    raises `AssertionError` ("Failed to update …") and nothing is written: the `b` built by the first pair has no
+    `_location`.  Distinct outputs are a necessary side condition. -/
+theorem multi_same_output_twice_raises : ¬ C13_multi_last_wins_full ∧
+    errOf (syncAll false none [⟨"A.x", "f.b", none⟩, ⟨"A.y", "f.b", none⟩]
+      [.cls "A" [] [] [.ann "x" "int" none, .ann "y" "str" none] []]
+      [.fn false "f" { args := [⟨"a", none⟩, ⟨"b", none⟩], defaults := ["1"] } [] [] none]) = some .assertion := by
+  refine ⟨fun h => ?_, by decide⟩
+  have := h [.cls "A" [] [] [.ann "x" "int" none, .ann "y" "str" none] []]
+    [.fn false "f" { args := [⟨"a", none⟩, ⟨"b", none⟩], defaults := ["1"] } [] [] none] "A.x" "A.y" "f.b" (by decide) (by decide)
+  revert this; decide
+
+/-- full claim "wrapped once": one input attribute for two parameters under a template gives BOTH the template applied
+    once to the input's annotation -/
+def C13_multi_wrap_full : Prop :=
+  ∀ (input output : Module) (c x ann : String) (v : Option String) (f₁ p₁ f₂ p₂ tmpl w : String) (out : Module),
+    intendedAttr c x input = some (ann, v) → formatWrap tmpl ann = .ok w →
+    syncAll false (some tmpl) [⟨c ++ "." ++ x, f₁ ++ "." ++ p₁, none⟩, ⟨c ++ "." ++ x, f₂ ++ "." ++ p₂, none⟩] input output = .ok out →
+    intendedParam f₁ x out = some ⟨x, some w⟩ ∧ intendedParam f₂ x out = some ⟨x, some w⟩
+
+def wIn5 : Module := [.cls "A" [] [] [.ann "x" "int" (some "5")] []]
+def wOut5 : Module :=
+  [.fn false "f" { args := [⟨"a", none⟩, ⟨"b", none⟩], defaults := ["1"] } [] [] none, .fn false "h" { args := [⟨"c", none⟩] } [] [] none]
+def wPairs5 : List Pair := [⟨"A" ++ "." ++ "x", "f" ++ "." ++ "b", none⟩, ⟨"A" ++ "." ++ "x", "h" ++ "." ++ "c", none⟩]
+
+/-- **Negation (one input for several outputs, with a template):** the template is applied by assigning to the INPUT
+    node's annotation, so the second use wraps it again: `A.x → f.b, A.x → h.c` with `Optional[{output_param}]` gives
+    `f(a, x: Optional[int] = 1)` and `h(x: Optional[Optional[int]])` (corpus/C13/m05).  "No input node used twice under a
+    template" is a necessary side condition of the slot clause. -/
+theorem not_C13_multi_wrap_once : ¬ C13_multi_wrap_full := by
+  intro h
+  have key : (match syncAll false (some "Optional[{output_param}]") wPairs5 wIn5 wOut5 with
+      | .ok m => (intendedParam "h" "x" m).map fun a => (a.name, a.ann)
+      | .error _ => none) = some ("x", some "Optional[Optional[int]]") := by decide
+  cases hs : syncAll false (some "Optional[{output_param}]") wPairs5 wIn5 wOut5 with
+  | error e => rw [hs] at key; cases key
+  | ok out =>
+    rw [hs] at key
+    simp only [] at key
+    have := (h wIn5 wOut5 "A" "x" "int" (some "5") "f" "b" "h" "c" "Optional[{output_param}]" "Optional[int]" out
+      (by decide) (by rfl) hs).2
+    rw [this] at key
+    revert key; decide
+
+/-- full claim "every pair reaches the location its path names in the OUTPUT FILE": after `i₁ → K.y, i₂ → A.x` the class
+    `A` of the output file holds the second input -/
+def C13_multi_original_slots_full : Prop :=
+  ∀ (input output out : Module) (c₁ x₁ c₂ x₂ ann₂ : String) (v₂ : Option String) (k y a x : String),
+    intendedAttr c₂ x₂ input = some (ann₂, v₂) →
+    syncAll false none [⟨c₁ ++ "." ++ x₁, k ++ "." ++ y, none⟩, ⟨c₂ ++ "." ++ x₂, a ++ "." ++ x, none⟩] input output = .ok out →
+    intendedAttr a x₂ out = some (ann₂, v₂)
+
+def wIn7 : Module := [.cls "A" [] [] [.ann "x" "int" (some "5")] [], .cls "B" [] [] [.ann "z" "str" none] []]
+def wOut7 : Module := [.cls "K" [] [] [.ann "y" "float" none] [], .cls "A" [] [] [.ann "x" "bytes" none] []]
+
+/-- **Negation (stale `_location` of a moved input node):** `A.x → K.y, B.z → A.x` — the `AnnAssign` moved into class
+    `K` by the first pair still carries `_location = ['A','x']`, is visited first and is replaced AGAIN by the second pair:
+    `K` ends with `z: str`, the real `A.x` stays `x: bytes` (corpus/C13/m07).  "No node put in by an earlier pair carries a
+    later output path" is a necessary side condition (`multi_two_params_one_function` has it as `hfresh`). -/
+theorem not_C13_multi_original_slots : ¬ C13_multi_original_slots_full := by
+  intro h
+  have key : outView (syncAll false none [⟨"A" ++ "." ++ "x", "K" ++ "." ++ "y", none⟩, ⟨"B" ++ "." ++ "z", "A" ++ "." ++ "x", none⟩] wIn7 wOut7) =
+      some [[("z", some "str")], [("x", some "bytes")]] := by decide
+  cases hs : syncAll false none [⟨"A" ++ "." ++ "x", "K" ++ "." ++ "y", none⟩, ⟨"B" ++ "." ++ "z", "A" ++ "." ++ "x", none⟩] wIn7 wOut7 with
+  | error e => rw [hs] at key; cases key
+  | ok out =>
+    have hi := h wIn7 wOut7 out "A" "x" "B" "z" "str" none "K" "y" "A" "x" (by decide) hs
+    have key2 : (match syncAll false none [⟨"A" ++ "." ++ "x", "K" ++ "." ++ "y", none⟩, ⟨"B" ++ "." ++ "z", "A" ++ "." ++ "x", none⟩] wIn7 wOut7 with
+        | .ok m => intendedAttr "A" "z" m
+        | .error _ => none) = none := by decide
+    rw [hs] at key2
+    simp only [] at key2
+    rw [hi] at key2
+    cases key2
 
 end C13
